@@ -100,6 +100,7 @@ def prop_C16(ctx, tier):
               'R1: every RefCell borrow/borrow_mut in cachelito-core and in generated thread-scope wrappers is checked against the RefCell guards that may be live '
               'locally or in any caller (held sets flow through calls and through closures passed to LocalKey::with); a conflicting re-borrow is a panic on every '
               'execution of that path. R2: explicit panic sites (unwrap/expect/index/division) on cache-operation paths are classified by the origin of their operand. '
+              'R3: every library MemoryEstimator returns at least size_of::<Self>(), which is what makes the checked `estimate - size_of_val` of the wrapper estimators safe. '
               'Not decided: arithmetic overflow on absurd sizes; panics inside user code.', ASSUME_COMMON)
     w = ctx.world
     n, bad = L.check_reborrow(run, w)
@@ -115,6 +116,8 @@ def prop_C16(ctx, tier):
         run.bad('C16-R1', 'fail-closed/selftest/negative', 'fail-closed: the negative twin no_reborrow was flagged')
     from . import rules_x as X
     X.check_panic_sites(run, ctx)
+    from . import rules_est as EST
+    EST.check_estimator_lower_bound(run, ctx)
     return run
 
 
